@@ -287,7 +287,8 @@ def _lit_kw(draw, cfg, name):
     if name == "enum":
         return draw(st.lists(_literal(cfg), min_size=1, max_size=3))
     if name == "description":
-        return draw(st.sampled_from(["d", "some text", "two\nlines", "quote \" here"]))
+        return draw(st.sampled_from(["d", "some text", "two\nlines", "quote \" here",
+                                     "a long description " * 9, "x" * 101, "é" * 120]))
     if name in ("minimum", "maximum", "exclusiveMinimum", "exclusiveMaximum"):
         return draw(jv.numbers)
     if name == "multipleOf":
@@ -372,7 +373,19 @@ def _node(draw, cfg, depth, gen, kinds=None):
 
     if kind in ("AnyOf", "OneOf", "AllOf"):
         n = draw(st.integers(1, 3))
-        if kind == "AllOf" and draw(st.integers(0, 5)) == 0:
+        if kind == "AllOf" and depth > 1 and draw(st.integers(0, 7)) == 0:
+            # two array members: union-typed (or class) items first, a looser array second
+            built_before = set(index(gen.done))
+            item = draw(_node(cfg, depth - 2, gen, kinds=["AnyOf", "OneOf", "Object"] if (cfg.classes and gen.class_names)
+                              else ["AnyOf", "OneOf"]))
+            first = {"id": gen.new_id(), "kind": "Array", "kw": {}, "sub": {"items": item}}
+            second = {"id": gen.new_id(), "kind": draw(st.sampled_from(["Array", "Element"])), "kw": {}}
+            if second["kind"] == "Array":
+                second["sub"] = {"items": draw(_node(cfg, 0, gen, kinds=["Element", "Number", "Element"]))}
+            else:
+                second["kw"] = {"minItems": draw(st.integers(0, 1))}
+            node["elements"] = repair_refs([first, second], index(gen.done + [first, second]), built_before)
+        elif kind == "AllOf" and draw(st.integers(0, 5)) == 0:
             # a union of same-typed alternatives next to a differently constructing member
             k1, k2 = draw(st.sampled_from([("Integer", "Number"), ("Number", "Integer"), ("String", "Element"),
                                            ("Integer", "Element"), ("Array", "Element")]))
